@@ -1,4 +1,5 @@
 import AasVerif.Lemmas.Lit.Cs
+import AasVerif.Lemmas.Lit.Go
 /-!
 # C19 — Emitted literals denote exactly the original values
 
@@ -53,5 +54,50 @@ theorem cs_needs_escaping_iff (s : Text) :
 
 example : enc_cs [0x2028, 0xD800, 97, 0x1F600] = .ok (Text.ofString "\"\\u2028\\ud800a" ++ [0x1F600, 34]) := by decide
 example : dec_cs (Text.ofString "\"\\u2028\\ud800a" ++ [0x1F600, 34]) = some [0x2028, 0xD800, 97, 0xD83D, 0xDE00] := by decide
+
+/-! ## Go
+
+A Go string is a byte sequence; a literal denotes the UTF-8 encoding of the text. Lone surrogates
+have no UTF-8 encoding: for them the encoder must report an error (`go_error_outside`). -/
+
+/-- In the domain (no surrogate code points): the literal is emitted and denotes the UTF-8 bytes. -/
+theorem go_roundtrip (s : Text) (hs : ∀ c ∈ s, goDom c) :
+    ∃ lit, enc_go s = .ok lit ∧ dec_go lit = some (s.flatMap utf8cp) := by
+  refine ⟨[34] ++ s.flatMap escGoT ++ [34], enc_go_ok s hs, ?_⟩
+  have hst : storable ([34] ++ s.flatMap escGoT ++ [34]) = true :=
+    storable_wrap _ _ _ (okSrc_list_small _ (by decide))
+      (okSrc_flatMap escGoT _ go_okSrc s hs) (okSrc_list_small _ (by decide))
+  unfold dec_go
+  rw [if_pos hst]
+  have hr := run_of_runs (runs_flatMap stepGo escGoT utf8cp [34] goDom
+    (fun c tail v hc h => go_char c tail v hc h) (Runs.done (by simp [stepGo])) s hs)
+  simpa using hr
+
+/-- Outside the domain the generator reports an error instead of emitting a wrong literal. -/
+theorem go_error_outside (s : Text) (h : ∃ c ∈ s, 0xD800 ≤ c ∧ c ≤ 0xDFFF) :
+    enc_go s = .err "ValueError" := by
+  unfold enc_go
+  obtain ⟨c, hc, hsur⟩ := h
+  rw [mapRes_err escGo "ValueError" s go_err_site ⟨c, hc, _, go_err_of_surrogate c hsur⟩]
+
+theorem go_needs_escaping_iff (s : Text) (hs : ∀ c ∈ s, goDom c) :
+    needs_go s = true ↔ enc_go s ≠ .ok ([34] ++ s ++ [34]) := by
+  rw [enc_go_ok s hs]
+  have := flatMap_eq_self_iff escGoT needsCharGo go_needs_false go_needs_true s
+  unfold needs_go
+  constructor
+  · intro hn heq
+    simp only [Res.ok.injEq, List.cons_append, List.nil_append, List.cons.injEq, true_and,
+      List.append_cancel_right_eq] at heq
+    rw [this.1 heq] at hn; exact absurd hn (by decide)
+  · intro hne
+    cases hb : s.any needsCharGo with
+    | true => rfl
+    | false => exact absurd (by rw [this.2 hb]) hne
+
+example : goDom 0x1F600 ∧ goDom 1 ∧ goDom 255 := by unfold goDom; omega
+example : enc_go [1, 49, 0x1F600] = .ok (Text.ofString "\"\\x011\\U0001f600\"") := by decide
+example : dec_go (Text.ofString "\"\\x011\\U0001f600\"") = some [1, 49, 0xF0, 0x9F, 0x98, 0x80] := by decide
+example : enc_go [97, 0xD800] = .err "ValueError" := by decide
 
 end AasVerif.Props.C19
